@@ -158,6 +158,9 @@ impl<E: EventState + 'static> WaiterInterface<E, ModelSem, Sto<E>> for MW {
                 return <Self as WaiterInterface<E, ModelSem, Sto<E>>>::empty_buffer(self);
             }
             let s = self.sem();
+            if s.peek() == 0 {
+                log(Ev::Park { state: read_state::<E>(s) });
+            }
             if !sched::block_until(&|| s.peek() > 0) {
                 // the run was abandoned: every thread is blocked (the deadlock observation)
                 return Err(ListenerWaitError::InterruptSignal);
